@@ -166,3 +166,7 @@ mod tests {
         ));
     }
 }
+
+#[cfg(kani)]
+#[path = "/verif/kani/snap_dataplane/c08_policy.rs"]
+mod verif_c08_policy;
